@@ -88,8 +88,10 @@ def main(tier):
     # a project whose source files share their names (lib/main.asm next to main.asm, a/util.asm and b/util.asm): every file
     # must still get its own listing
     cid = n + 1
-    cprog = [G.insn("lda", "imm", G.num(1)), G.import_("lib/main.asm", "l"), G.import_("a/util.asm", "ua"), G.import_("b/util.asm", "ub"), G.insn("rts")]
-    cfiles = {"lib/main.asm": [G.insn("ldx", "imm", G.num(2))], "a/util.asm": [G.label("ua"), G.insn("lda", "imm", G.num(3))], "b/util.asm": [G.label("ub"), G.insn("lda", "imm", G.num(4))]}
+    cprog = [G.insn("lda", "imm", G.num(1)), G.import_("lib/main.asm", "l"), G.import_("a/util.asm", "ua"), G.import_("b/util.asm", "ub"),
+             G.import_("Font.asm", "cf"), G.import_("font.asm", "lf"), G.insn("rts")]      # (and two files whose names differ in case only)
+    cfiles = {"lib/main.asm": [G.insn("ldx", "imm", G.num(2))], "a/util.asm": [G.label("ua"), G.insn("lda", "imm", G.num(3))], "b/util.asm": [G.label("ub"), G.insn("lda", "imm", G.num(4))],
+              "Font.asm": [G.label("cf1"), G.insn("lda", "imm", G.num(5)), G.insn("ldx", "imm", G.num(5))], "font.asm": [G.insn("ldy", "imm", G.num(6)), G.label("lf1"), G.insn("rts")]}
     G.number_statements(cprog)
     for k, fn in enumerate(sorted(cfiles), 1):
         c = [100000 * k]
